@@ -605,5 +605,98 @@ impl super::Transport for ArcCC {
     }
 }
 
+/// Verification hook (compiled only with `--cfg genmeta_gm_quic_verif`): a read-only copy of
+/// the controller's state, taken under the controller's own mutex.
+#[cfg(genmeta_gm_quic_verif)]
+#[derive(Debug, Clone)]
+pub struct VerifSentPacket {
+    pub packet_number: u64,
+    pub time_sent: Instant,
+    pub ack_eliciting: bool,
+    pub in_flight: bool,
+    pub sent_bytes: usize,
+    /// 0 = outstanding, 1 = acked, 2 = declared lost
+    pub state: u8,
+}
+
+#[cfg(genmeta_gm_quic_verif)]
+#[derive(Debug, Clone)]
+pub struct VerifSpace {
+    pub largest_acked_packet: Option<u64>,
+    pub time_of_last_ack_eliciting_packet: Option<Instant>,
+    pub loss_time: Option<Instant>,
+    pub sent_packets: Vec<VerifSentPacket>,
+}
+
+#[cfg(genmeta_gm_quic_verif)]
+#[derive(Debug, Clone)]
+pub struct VerifSnapshot {
+    pub congestion_window: usize,
+    pub ssthresh: usize,
+    pub bytes_in_flight: usize,
+    pub congestion_recovery_start_time: Option<Instant>,
+    pub pto_count: u32,
+    pub loss_detection_timer: Option<Instant>,
+    pub smoothed_rtt: Duration,
+    pub rttvar: Duration,
+    pub loss_delay: Duration,
+    pub max_ack_delay: Duration,
+    pub pending_burst: bool,
+    pub need_send_ack_eliciting_packets: [usize; 3],
+    pub spaces: [VerifSpace; 3],
+}
+
+#[cfg(genmeta_gm_quic_verif)]
+impl ArcCC {
+    pub fn verif_snapshot(&self) -> VerifSnapshot {
+        let guard = self.0.lock().unwrap();
+        let (bytes_in_flight, ssthresh, congestion_recovery_start_time) =
+            guard.algorithm.verif_state();
+        let space = |epoch: Epoch| {
+            let space = &guard.packet_spaces[epoch];
+            VerifSpace {
+                largest_acked_packet: space.largest_acked_packet,
+                time_of_last_ack_eliciting_packet: space.time_of_last_ack_eliciting_packet,
+                loss_time: space.loss_time,
+                sent_packets: space
+                    .sent_packets
+                    .iter()
+                    .map(|p| VerifSentPacket {
+                        packet_number: p.packet_number,
+                        time_sent: p.time_sent,
+                        ack_eliciting: p.ack_eliciting,
+                        in_flight: p.count_for_cc,
+                        sent_bytes: p.sent_bytes,
+                        state: match p.state {
+                            crate::packets::State::Inflight => 0,
+                            crate::packets::State::Acked => 1,
+                            crate::packets::State::Retransmitted => 2,
+                        },
+                    })
+                    .collect(),
+            }
+        };
+        VerifSnapshot {
+            congestion_window: guard.algorithm.congestion_window(),
+            ssthresh,
+            bytes_in_flight,
+            congestion_recovery_start_time,
+            pto_count: guard.pto_count,
+            loss_detection_timer: guard.loss_detection_timer,
+            smoothed_rtt: guard.rtt.smoothed_rtt(),
+            rttvar: guard.rtt.rttvar(),
+            loss_delay: guard.rtt.loss_delay(),
+            max_ack_delay: guard.max_ack_delay,
+            pending_burst: guard.pending_burst,
+            need_send_ack_eliciting_packets: guard.need_send_ack_eliciting_packets,
+            spaces: [
+                space(Epoch::Initial),
+                space(Epoch::Handshake),
+                space(Epoch::Data),
+            ],
+        }
+    }
+}
+
 #[cfg(test)]
 mod tests {}
